@@ -1,72 +1,128 @@
 /-
-Model/ReaderSystem.lean — `Reader.Close` over its components: the partition fetchers (Model/FetcherLife.lean, one
-state per `(*reader).run` goroutine accounted in `r.join`) and, for a group reader, the `ConsumerGroup.run` goroutine
-(the group builder's Model/GroupRun.lean).  The glue follows `(*Reader).Close` (order extracted as fact
-`readerCloseOrder`):
-
-    closeBegin   Close is called
-    closeMark    r.closed = true; r.cancel() — every fetcher's context is done; r.stop() — the group loop's `stctx`
-                 is cancelled, `Reader.run` returns from `cg.Next` and its deferred `cg.Close()` closes `cg.done`
-    (components) fetchers and the group's `run` goroutine wind down by their own steps
-    closeMsgs    after `r.join.Wait()` (every fetcher returned) and `<-r.done` (run exited, `cg.Close()` returned): close(r.msgs)
-    closeReturn
-
-`fetcherStart` (a fetcher is spawned by `start`) needs `¬closed` (fact `startAccountsFetchersAndRefusesWhenClosed`).
-After the mark the application-side events of GroupRun (`nextCall`, `closeCall`) do not occur any more: `Reader.run`
-is the only caller of `Next` and it returns when `stctx` is done.
+Model/ReaderSystem.lean — the whole Reader: the front of Model/ReaderFront.lean (FetchMessage / SetOffset / the version
+tags / the `msgs` queue) with, instead of abstract fetchers, one reader loop (Model/ReaderLoopLTS.lean) per fetcher ever
+started, each running against the world of Model/ReaderWorld.lean (broker under the fetch contract, lossy network,
+clock, decoder as written).  What a loop pushes into `r.msgs` goes into the queue with the loop's tag.  Core Lean only.
 -/
-import KafkaVerif.Model.FetcherLife
-import KafkaVerif.Model.GroupRun
+import KafkaVerif.Model.ReaderWorld
+import KafkaVerif.Model.ReaderFront
 
-namespace KV.ReaderSystem
-open KV
+namespace KV.C02
 
-structure State where
-  close : Nat := 0                       -- 0 not called, 1 called, 2 marked, 3 returned
-  closed : Bool := false
-  msgsClosed : Bool := false
-  fetchers : List FetcherLife.State := []
-  group : Option Group.St := none        -- `some` for a group reader
-deriving Repr
+structure CS where
+  fs : FS := {}
+  loops : List (Nat × RR) := []     -- the loop of every fetcher ever started, by version tag
 
-inductive Event
-  | closeBegin | closeMark | closeMsgs | closeReturn
-  | fetcherStart
-  | fetcher (i : Nat) (e : FetcherLife.Event)
-  | group (e : Group.Ev)
-deriving Repr
+inductive CEv
+  /-- `Reader.SetOffset(o)` (also the lazy start of the first fetcher at the configured offset) -/
+  | setOffset (o : Int)
+  /-- a blocking call of fetcher `t`'s loop returns: whatever the world does -/
+  | env (t : Nat) (x : Env)
+  /-- `Reader.FetchMessage` -/
+  | fetch
+  deriving Repr
 
-def groupExited (s : State) : Bool :=
-  match s.group with
-  | none => true
-  | some g => g.pc == .exited
+def lookupLoop (t : Nat) : List (Nat × RR) → Option RR
+  | [] => none
+  | (t', s) :: rest => if t' = t then some s else lookupLoop t rest
 
-def fetchersExited (s : State) : Bool := s.fetchers.all fun f => f.pc == .exited
+def setLoop (t : Nat) (s' : RR) : List (Nat × RR) → List (Nat × RR)
+  | [] => []
+  | (t', s) :: rest => if t' = t then (t', s') :: rest else (t', s) :: setLoop t s' rest
 
-def step (c : Group.Cfg) (s : State) : Event → Option State
-  | .closeBegin => if s.close = 0 then some { s with close := 1 } else none
-  | .closeMark =>
-    if s.close = 1 then
-      some { s with close := 2, closed := true,
-                    fetchers := s.fetchers.map fun f => { f with cancelled := true },
-                    group := s.group.map fun g => { g with closedCG := true } }
-    else none
-  | .closeMsgs =>
-    if s.close = 2 && fetchersExited s && groupExited s && !s.msgsClosed then some { s with msgsClosed := true } else none
-  | .closeReturn => if s.close = 2 && s.msgsClosed then some { s with close := 3 } else none
-  | .fetcherStart => if !s.closed then some { s with fetchers := s.fetchers ++ [{}] } else none
-  | .fetcher i e =>
-    match s.fetchers[i]? with
+/-- the loop with tag `t` has pushed the messages `d` (`sendMessage` once per message) -/
+def pushQ (fs : FS) (t : Nat) (d : List Rec) : FS :=
+  { fs with queue := fs.queue ++ d.map (fun r => (t, r)),
+            fetchers := fs.fetchers.map fun g => if g.tag = t then { g with sent := g.sent + d.length } else g }
+
+def cstep (cfg : RCfg) (items : List Item) (c : CS) : CEv → Option (CS × Option Rec)
+  | .setOffset o =>
+    match fstep (allRecords items) c.fs (.setOffset o) with
     | none => none
-    | some f =>
-      -- the fetcher's context is cancelled by the Reader only (at the mark / by a newer start), not by itself
-      if e = .ctxCancel then none
-      else (FetcherLife.step f e).map fun f' => { s with fetchers := s.fetchers.set i f' }
-  | .group e =>
-    match s.group with
+    | some (fs', m) => some ({ fs := fs', loops := (c.fs.version + 1, { offset := o }) :: c.loops }, m)
+  | .env t x =>
+    match lookupLoop t c.loops with
     | none => none
-    | some g =>
-      if s.closed && (e == .nextCall || e == .closeCall) then none
-      else (Group.step c g e).map fun g' => { s with group := some g' }
+    | some s =>
+      let s' := rstep cfg s (worldEvent items s x)
+      some ({ fs := pushQ c.fs t (s'.msgs.drop s.msgs.length), loops := setLoop t s' c.loops }, none)
+  | .fetch =>
+    match fstep (allRecords items) c.fs .fetch with
+    | none => none
+    | some (fs', m) => some ({ c with fs := fs' }, m)
 
-end KV.ReaderSystem
+/-- run events, collecting what FetchMessage returned -/
+def crun (cfg : RCfg) (items : List Item) : CS → List CEv → Option (CS × List Rec)
+  | c, [] => some (c, [])
+  | c, e :: es =>
+    match cstep cfg items c e with
+    | none => none
+    | some (c', m) =>
+      match crun cfg items c' es with
+      | none => none
+      | some (c'', ms) => some (c'', (match m with | some r => [r] | none => []) ++ ms)
+
+def CEv.ok (items : List Item) : CEv → Prop
+  | .setOffset o => -2 ≤ o ∧ o ≠ -1          -- an absolute offset or FirstOffset
+  | .env _ x => x.ok items
+  | .fetch => True
+
+def CEv.notSet : CEv → Prop
+  | .setOffset _ => False
+  | _ => True
+
+
+/-! ### the API as the application sees it: `Offset()`, the no-op rule of `SetOffset`, the lazy start
+
+reader.go: `SetOffset(o)` does nothing when `o == r.offset`; otherwise `r.offset = o` and, if a fetcher was ever started
+(`r.version != 0`), `r.start`.  `FetchMessage` starts the first fetcher at `r.offset` when `r.version == 0`, then receives;
+a message of the current version sets `r.offset = m.Offset + 1`. -/
+
+structure AS where
+  c : CS := {}
+  pos : Int            -- r.offset, what `Reader.Offset()` returns
+
+inductive AEv
+  | setOffset (o : Int)
+  | env (t : Nat) (x : Env)
+  | fetch
+  deriving Repr
+
+def astep (cfg : RCfg) (items : List Item) (a : AS) : AEv → Option (AS × Option Rec)
+  | .setOffset o =>
+    if o = a.pos then some (a, none)
+    else if a.c.fs.version = 0 then some ({ a with pos := o }, none)
+    else match cstep cfg items a.c (.setOffset o) with
+      | none => none
+      | some (c', _) => some ({ c := c', pos := o }, none)
+  | .env t x =>
+    match cstep cfg items a.c (.env t x) with
+    | none => none
+    | some (c', _) => some ({ a with c := c' }, none)
+  | .fetch =>
+    -- the locked section of FetchMessage (lazy start) and the receive from r.msgs are two steps
+    if a.c.fs.version = 0 then
+      match cstep cfg items a.c (.setOffset a.pos) with
+      | none => none
+      | some (c', _) => some ({ a with c := c' }, none)
+    else
+      match cstep cfg items a.c .fetch with
+      | none => none
+      | some (c2, m) => some ({ c := c2, pos := match m with | some r => r.1 + 1 | none => a.pos }, m)
+
+def arun (cfg : RCfg) (items : List Item) : AS → List AEv → Option (AS × List Rec)
+  | a, [] => some (a, [])
+  | a, e :: es =>
+    match astep cfg items a e with
+    | none => none
+    | some (a', m) =>
+      match arun cfg items a' es with
+      | none => none
+      | some (a'', ms) => some (a'', (match m with | some r => [r] | none => []) ++ ms)
+
+def AEv.ok (items : List Item) : AEv → Prop
+  | .setOffset o => -2 ≤ o ∧ o ≠ -1
+  | .env _ x => x.ok items
+  | .fetch => True
+
+end KV.C02
